@@ -1,6 +1,7 @@
 package harness
 
 import (
+	"strings"
 	"fmt"
 	"net/http"
 	"os"
@@ -35,6 +36,41 @@ func canonCase(c *Case) {
 	}
 }
 
+// canonTwin returns a copy of c with each respelled Cache-Control field replaced by the canonical
+// single-line spelling of the same directive list, or nil when nothing was respelled.
+func canonTwin(g *G, c *Case) *Case {
+	changed := false
+	fixH := func(hs []Hdr) []Hdr {
+		out := make([]Hdr, len(hs))
+		for i, h := range hs {
+			out[i] = Hdr{h.Name, append([]string(nil), h.Vals...)}
+			if h.Name == "Cache-Control" {
+				if cv, ok := g.canon[strings.Join(h.Vals, "\x00")]; ok && (len(h.Vals) != 1 || h.Vals[0] != cv) {
+					out[i].Vals = []string{cv}
+					changed = true
+				}
+			}
+		}
+		return out
+	}
+	tw := &Case{ID: c.ID + "~c", Stream: c.Stream, SWRTimeout: c.SWRTimeout, Note: c.Note}
+	for _, r := range c.Reqs {
+		r2 := r
+		r2.Hdrs = fixH(r.Hdrs)
+		tw.Reqs = append(tw.Reqs, r2)
+	}
+	for _, e := range c.Script {
+		e2 := e
+		e2.Plain.Hdrs = fixH(e.Plain.Hdrs)
+		e2.Cond.Hdrs = fixH(e.Cond.Hdrs)
+		tw.Script = append(tw.Script, e2)
+	}
+	if !changed {
+		return nil
+	}
+	return tw
+}
+
 // TestE2E generates VERIF_N cases for profile VERIF_PROFILE with seed VERIF_SEED, runs them against
 // the real transport and writes cases.txt and impl.txt into VERIF_OUT.
 func TestE2E(t *testing.T) {
@@ -67,6 +103,14 @@ func TestE2E(t *testing.T) {
 		_ = os.WriteFile(current, []byte(c.Encode()), 0o644)
 		cases = append(cases, c.Encode())
 		impl = append(impl, runCase(t, c, ropts)...)
+		if os.Getenv("VERIF_TWINS") != "" {
+			// the same history with every respelled Cache-Control field in its canonical spelling (C12)
+			if tw := canonTwin(g, c); tw != nil {
+				_ = os.WriteFile(current, []byte(tw.Encode()), 0o644)
+				cases = append(cases, tw.Encode())
+				impl = append(impl, runCase(t, tw, ropts)...)
+			}
+		}
 	}
 	_ = os.Remove(current)
 	if err := writeLines(filepath.Join(out, "cases.txt"), cases); err != nil {
